@@ -15,6 +15,8 @@ for log in sys.argv[1:]:
         os.makedirs(dst, exist_ok=True)
         if os.path.isdir(src):
             for f in os.listdir(src):
+                if f == "meta.json" and os.path.exists(os.path.join(dst, f)) and not os.environ.get("KEEP_SEED_RESET"):
+                    continue   # keep the evaluation history already recorded
                 if os.path.isfile(os.path.join(src, f)) and os.path.getsize(os.path.join(src, f)) < 400000:
                     shutil.copy(os.path.join(src, f), os.path.join(dst, f))
         meta_p = os.path.join(dst, "meta.json")
